@@ -27,6 +27,10 @@ script = {
   'hform', 'sform': the callable form of the registered error handler / of the sink (function, object, partial,
                                       method, falsy_object = a callable object whose truth value is False)
   'hostile_exc':  the application errors have __str__/__repr__ that raise
+  'exc_shape':    how the raised "app error with handler" relates to the class the handler is registered for:
+                                      'direct' (that class), 'subclass', 'second_base' (class X(Other, Registered)),
+                                      'diamond'; the handler registered for a class in the MRO handles it
+  'refused'['repeat']: the refused batch additionally repeats component <index> that is already registered
   comps[i]['falsy']: the component object's truth value is False
   'refused':      {'why': 'cors'|'nomethods'|'compat', 'order': 0|1, 'reprepare': bool}: right after construction an
                                       add_middleware() call is made that the framework refuses with an exception
@@ -230,6 +234,7 @@ class _Interp:
         elif a == 'app_handled':
             self.trace.append(('H', site))
             self.classes.add('hform.' + (self.script.get('hform') or 'function'))
+            self.classes.add('excshape.' + (self.script.get('exc_shape') or 'direct'))
             if self.script.get('hostile_exc'):
                 self.classes.add('hostile.handled')
             ha = self.case['hactions'][self.hcount % len(self.case['hactions'])] if self.case.get('hactions') else 'ret'
